@@ -12,12 +12,16 @@ LIMITS = ["", "maxlits=2", "maxlen=1", "maxclass=1", "cross=2", "maxlits=1,maxle
 
 def items(tier):
     out = []
-    pats = [p for p, _, _ in corpus.entries(tier)]
+    ents = corpus.entries(tier)
+    pats = [p for p, _, _ in ents]
+    deep = {p for p, _, t in ents if corpus.deep(t)} | set(EXTRA)
     pats += [p for p in EXTRA if p not in pats]
     Ls = [2, 3] if tier == "quick" else [1, 2, 3, 4]
     for p in pats:
         a = "utf8" if corpus.uses_anychar(p) else ""
         for L in Ls:
+            if L == 4 and p not in deep:
+                continue
             for api in ["prefix", "suffix", "inner", "innerR"]:
                 out.append(mk("C17", p, api, L, a))
     for p in EXTRA:
